@@ -12,7 +12,7 @@ EXPL = ("R20.1 the counter-visit closure of readout reports the result of exactl
         "storage, describe_* records the unit under the metric name. R20.7 the bridge histogram's drain reaches the atomic bucket sweep on every path "
         "and keeps no separate flag next to the bucket counters. R20.6 the described-units map a readout "
         "carries is obtained after the three registry visits (never a snapshot the caller took before the walk). R20.5 (async body: call-site facts only) every append in the "
-        "reporter task takes a fresh readout() and no readout result is discarded. Not decided: exactly-once under true races "
+        "reporter task takes a fresh readout() and no readout result is discarded. R20.9 the Result of every fallible bucket store (AtomicHistogram::add/increment) in the bridge crate is consumed, never discarded. Not decided: exactly-once under true races "
         "(atomic semantics, histogram crate).")
 MR = "metrique_metricsrs"
 RMW = ("swap", "fetch_and", "fetch_update", "fetch_sub", "compare_exchange", "compare_exchange_weak", "fetch_min", "fetch_max", "fetch_xor", "fetch_or", "fetch_nand", "fetch_add")
@@ -24,6 +24,34 @@ def atomic_calls(b):
 
 def run(ctx):
     F = ctx.facts("dbg")
+    # R20.9 (seed S143): "every histogram observation is counted in exactly one readout" - the bucket store of the bridge's histogram
+    # is fallible (out-of-range value); its verdict is never discarded: the Result of every `AtomicHistogram::add/increment` call in
+    # the bridge crate is consumed (expect / unwrap / `?` / a match), so a sample that cannot be stored stops the caller instead of
+    # vanishing. (That the capped value is in range is numeric and not decided here.)
+    import json as _json
+    from mq.prov import op_local as _opl
+    nadd = 0
+    for b in F.all_bodies(MR):
+        for c in b.calls():
+            if c.name not in ("add", "increment") or "Histogram" not in (c.def_ or "") or not (c.def_ or "").startswith("histogram::"):
+                continue
+            nadd += 1
+            d = (c.dest or {}).get("l")
+            used = any(c2 is not c and any(_opl(a_) == d for a_ in c2.args) for c2 in b.calls())
+            if not used:
+                for i_ in b.live_blocks():
+                    if b.is_cleanup(i_):
+                        continue
+                    t_ = b.term(i_)
+                    if t_["k"] == "switch" and _opl(t_["discr"]) == d:
+                        used = True
+                    for s_ in b.stmts(i_):
+                        if s_["k"] == "assign" and ('"l": %d,' % d in _json.dumps(s_["rv"]) or '"l": %d}' % d in _json.dumps(s_["rv"])):
+                            used = True
+            ctx.check(used, "R20.9", fnkey(b) + "#bucket-store-verdict-consumed", loc(b, c.bb),
+                      "the Result of the histogram's fallible bucket store (`%s`) is discarded: a sample the store rejects (value out of the configured "
+                      "range) disappears from every readout without a trace" % c.name, "result of `%s` is consumed" % c.name)
+    ctx.floor("R20.9", "fallible bucket stores of the bridge histogram", nadd, 1)
     VISITS = ("visit_counters", "visit_gauges", "visit_histograms")
     # walks that may remove what they visit: never part of a readout (a handle given out earlier keeps pointing at an evicted cell,
     # which no later readout visits - increments made through it are reported nowhere)
